@@ -188,6 +188,47 @@ def _expanded_strings(fn, e, depth=0):
     return out
 
 
+def _truth_at_splice(fn, test, which):
+    """Truth of *test* when the raw text at the cursor is the splice spelling *which* ('\\\n' or '??/\n'); None = unknown."""
+    if isinstance(test, ast.UnaryOp) and isinstance(test.op, ast.Not):
+        v = _truth_at_splice(fn, test.operand, which)
+        return None if v is None else not v
+    if isinstance(test, ast.BoolOp):
+        vs = [_truth_at_splice(fn, v, which) for v in test.values]
+        if isinstance(test.op, ast.And):
+            return False if any(v is False for v in vs) else True if all(v is True for v in vs) else None
+        return True if any(v is True for v in vs) else False if all(v is False for v in vs) else None
+    if isinstance(test, ast.Compare) and len(test.ops) == 1:
+        strs = _expanded_strings(fn, test.comparators[0]) | _expanded_strings(fn, test.left)
+        if strs & {"\\\n", "??/\n"}:
+            here = which in strs
+            op = test.ops[0]
+            if isinstance(op, (ast.Eq, ast.In)):
+                return here
+            if isinstance(op, (ast.NotEq, ast.NotIn)):
+                return not here
+    return None
+
+
+def _behind_splice_test(fn, g, st) -> bool:
+    """Every path to the raw advance *st* traverses the outcome of a test that means `a line splice (either spelling) starts
+    here` -- whatever the shape: `if a == S1 or b == S2:`, `if a != S1 and b != S2: break`, a while condition ..."""
+    edges = {}
+    for tn in g.nodes:
+        if tn.kind != "test" or tn.ast is None:
+            continue
+        strs = _expanded_strings(fn, tn.ast)
+        if not ("\\\n" in strs and "??/\n" in strs):
+            continue
+        a, b = _truth_at_splice(fn, tn.ast, "\\\n"), _truth_at_splice(fn, tn.ast, "??/\n")
+        if a is not None and a == b:
+            edges[tn.id] = "T" if a else "F"
+    at = g.nid(st)
+    if not edges or at is None:
+        return False
+    return not g.can_reach(g.entry, at, follow_exc=False, edge_filter=lambda n_, m_, lab: not (n_ in edges and lab == edges[n_]))
+
+
 def rule_raw_advance(run, prog):
     run.rule("R-10.2", "every direct advance of the source position outside pop() is the splice skip (guarded by a test against "
              "both spellings of backslash-newline) or is dominated by the BAD_LEXEME diagnostic being added (never silently "
@@ -208,6 +249,8 @@ def rule_raw_advance(run, prog):
                     strs = _expanded_strings(fn, a.test)
                     if "\\\n" in strs and "??/\n" in strs:
                         splice = True
+                if not splice:
+                    splice = _behind_splice_test(fn, g, st)
                 if splice:
                     run.ob("R-10.2", key, True, "splice skip (both spellings)", st)
                     continue
